@@ -8,7 +8,8 @@ FUNCTIONS = ([_C + "COVIncrementCriteria.present_value_filter"]
     + [_D + "DetectionMonitor.property_change[%s]" % k for k in ("analog presentValue", "generic presentValue", "statusFlags")]
     + [_D + "DetectionAlgorithm._execute[%s, %d subscriptions]" % (c, n) for c in ("COVIncrementCriteria", "GenericCriteria") for n in range(3)]
     + [_C + "Subscription.process_task[%d subscriptions]" % n for n in (1, 2)]
-    + [_C + "ChangeOfValueServices.do_SubscribeCOVRequest[%d subscriptions]" % n for n in range(3)])
+    + [_C + "ChangeOfValueServices.do_SubscribeCOVRequest[%d subscriptions]" % n for n in range(3)]
+    + [_C + "ActiveCOVSubscriptions.ReadProperty[%d subscriptions]" % n for n in range(3)])
 LEMMAS = []
 MIN_OBLIGATIONS = 30
 BOUNDED = None
@@ -20,7 +21,7 @@ ASSUMPTIONS = [
     "floats as reals",
 ]
 NOT_DECIDED = [
-    "ActiveCOVSubscriptions.ReadProperty (building the COVSubscription list from ChangeOfValueServices.subscriptions()) and SubscribeCOVProperty",
+    "SubscribeCOVProperty",
     "the criteria classes other than GenericCriteria and COVIncrementCriteria (pulse converter period filter, access point, load control)",
     "delivery of a confirmed notification through the IOCB / transaction layers (C04)",
 ]
@@ -31,7 +32,8 @@ EXPLANATION = ("present_value_filter reports a change iff it is at least the COV
                "remaining lifetime (0 for indefinite, at least 1 otherwise), remembers the reported value and clears the trigger; expiry (Subscription.process_task) and "
                "cancellation remove exactly that subscription, disarm its timer, and when it was the object's last one unhook every monitor and drop the detection from the "
                "application's map; SubscribeCOV is acknowledged, creates exactly one subscription per (subscriber, process id, object), re-times and re-parameterises an "
-               "existing one instead of adding a second, arms the lifetime timer iff the lifetime is non-zero, and defers an initial notification to that subscriber.")
+               "existing one instead of adding a second, arms the lifetime timer iff the lifetime is non-zero, and defers an initial notification to that subscriber; the active-subscriptions property lists exactly the live subscriptions, each with its subscriber, "
+               "process identifier, object, notification type and remaining lifetime.")
 LEVEL_TEXT = "Proof per entry point for all values, increments, lifetimes and clock readings over 0..2 subscriptions per object; histories by induction over the per-call contracts."
 LEVEL_NOTE = ("Trusted: pyvc (cross-checked against CPython every run), z3/cvc5, the sidecar stand-ins listed under assumptions. Two genuine defects were repaired "
               "(see known_findings.json).")
